@@ -78,8 +78,18 @@ func Harness_C18_reconnect() {
 	vAcceptCalls, vConnects = 0, 0
 	vConnectFails = false
 	u := &Upstream{Logger: zap.NewNop()}
-	l := newListener("e", u, u.logger())
-	l.sess = &yamux.Session{}
+	// the listener is created through the public API; the context given to
+	// Listen only bounds the initial connect (the agent passes a connect-timeout
+	// context there) and may have ended long before the session is lost
+	listenCtx, listenCancel := context.WithCancel(context.Background())
+	ln, lerr := u.Listen(listenCtx, "e")
+	v.Assert("C18/reconnect/listen-connects", lerr == nil && ln != nil && vConnects == 1)
+	l := ln.(*listener)
+	vConnects = 0
+	if v.Choose("listen-context-ended-after-connect", 2) == 1 {
+		listenCancel()
+		v.Cover("listen-context-ended")
+	}
 	ctx, cancel := context.WithCancel(context.Background())
 	defer cancel()
 
@@ -123,8 +133,11 @@ func Harness_C18_reconnect_fails() {
 	vAcceptCalls, vConnects = 0, 0
 	vConnectFails = true
 	u := &Upstream{Logger: zap.NewNop()}
-	l := newListener("e", u, u.logger())
-	l.sess = &yamux.Session{}
+	vConnectFails = false
+	ln, lerr := u.Listen(context.Background(), "e")
+	v.Assert("C18/reconnect/listen-connects", lerr == nil && ln != nil)
+	l := ln.(*listener)
+	vConnects, vConnectFails = 0, true
 	vAcceptScript = []int{3}
 	_, err := l.AcceptWithContext(context.Background())
 	v.Assert("C18/reconnect/connect-error-reported", err != nil && errors.Is(err, vErrConnect) && vConnects == 1)
